@@ -27,6 +27,7 @@ import   "github.com/pbenner/autodiff/statistics/vectorDistribution"
 
 import . "github.com/pbenner/autodiff"
 import . "github.com/pbenner/threadpool"
+import   "github.com/pbenner/autodiff/verifhook"
 
 /* -------------------------------------------------------------------------- */
 
@@ -114,6 +115,8 @@ func (obj *HmmEstimator) Emissions(gamma []DenseFloat64Vector, p ThreadPool) err
   // estimate emission parameters
   g := p.NewJobGroup()
   if err := p.AddRangeJob(0, len(hmm1.Edist), g, func(c int, p ThreadPool, erf func() error) error {
+    verifhook.Yield("vectorEstimator.hmm.job")
+    verifhook.Event("vectorEstimator.hmm", c, p.GetThreadId())
     // copy parameters for faster convergence
     p1 := hmm1.Edist[c].GetParameters()
     p2 := hmm2.Edist[c].GetParameters()
@@ -135,6 +138,7 @@ func (obj *HmmEstimator) Emissions(gamma []DenseFloat64Vector, p ThreadPool) err
   }); err != nil {
     return err
   }
+  verifhook.Yield("vectorEstimator.hmm.queued")
   if err := p.Wait(g); err != nil {
     return err
   }
